@@ -65,6 +65,10 @@ type ReplayFile struct {
 	Input    string `json:"input_printable"`
 	Output   string `json:"output_printable"`
 	Source   string `json:"source"` // which job produced it
+	// when the policy was extended after it had been used: the recipe up to ExtendAt was built first, the inputs of
+	// PriorB64 were sanitised, then the rest of the recipe was applied
+	ExtendAt int      `json:"extend_at,omitempty"`
+	PriorB64 []string `json:"prior_inputs_b64,omitempty"`
 }
 
 // RunResult aggregates a job.
@@ -134,6 +138,12 @@ func printable(b []byte) string {
 func WriteReplay(f Finding, x *Exec, source string) string {
 	rf := ReplayFile{Property: f.Prop, Key: f.Key, Detail: f.Detail, Recipe: x.Recipe,
 		InputB64: base64.StdEncoding.EncodeToString(x.Input), Input: printable(x.Input), Output: printable(x.Output), Source: source}
+	if x.ExtendAt > 0 {
+		rf.ExtendAt = x.ExtendAt
+		for _, in := range x.Prior {
+			rf.PriorB64 = append(rf.PriorB64, base64.StdEncoding.EncodeToString(in))
+		}
+	}
 	h := sha1.Sum(append(JSON(x.Recipe), x.Input...))
 	os.MkdirAll(ReplayDir(), 0o755)
 	path := filepath.Join(ReplayDir(), f.Prop+"-"+hex.EncodeToString(h[:6])+".json")
@@ -462,6 +472,21 @@ func cmdRepro(args []string) int {
 	}
 	in, _ := base64.StdEncoding.DecodeString(rf.InputB64)
 	real, model := BuildReal(rf.Recipe), BuildAP(rf.Recipe)
+	if rf.ExtendAt > 0 && rf.ExtendAt < len(rf.Recipe) {
+		b := &Builder{}
+		for _, c := range rf.Recipe[:rf.ExtendAt] {
+			b.Apply(c)
+		}
+		for _, p64 := range rf.PriorB64 {
+			pin, _ := base64.StdEncoding.DecodeString(p64)
+			b.P.SanitizeBytes(pin)
+		}
+		for _, c := range rf.Recipe[rf.ExtendAt:] {
+			b.Apply(c)
+		}
+		real = b.P
+		fmt.Printf("(policy used on %d inputs after its first %d builder calls, then extended)\n", len(rf.PriorB64), rf.ExtendAt)
+	}
 	rec, out := RunRecorded(real, in)
 	x := NewExec(rf.Recipe, model, real, in, out, rec)
 	fmt.Printf("input:  %q\noutput: %q\n", in, out)
